@@ -1,7 +1,7 @@
 """C01 - learned diagram accepts every job it was learned from."""
 import itertools
 
-from .. import dsl, semantics
+from .. import dsl, fragment, semantics
 from . import pvcommon, pvsweep
 
 ID = "C01"
@@ -23,7 +23,8 @@ def build(tier, ctx):
                           "pres": pres, "mode": "c01"})
     else:
         defs = pvcommon.scope_defs(ctx["repo"], 7)
-        defs += pvcommon.extended_defs(6)
+        defs += pvcommon.extended_defs(6, stretched=(5, 10))
+        defs += [("FX", d) for d in fragment.stretched_family(4, 17)]
         defs += pvcommon.skeleton_defs(tier)
         for nm, d in defs:
             tasks.append({"name": nm, "defn": dsl.to_list(d), "k": 2,
@@ -61,7 +62,7 @@ def build(tier, ctx):
                                 with_corpus=False)
     fdefs += pvcommon.skeleton_defs(tier)
     fdefs += pvcommon.extended_defs(0, staged=True, bunched=False,
-                                    leadloop=5)
+                                    leadloop=5, stretched=None)
     for nm, d in fdefs:
         if nm + repr(dsl.to_list(d)) in done:
             continue
@@ -75,10 +76,16 @@ def build(tier, ctx):
 
 def collect(tier, tasks, results, ctx):
     bounds = {"tier": tier,
-              "definitions": "F_5 + 63 corpus + extended (bunched forks "
-              "<= 5 events, staged merges)" if tier == "quick"
-              else "F_7 + 63 corpus + extended (bunched forks <= 6 events, "
-              "staged merges); k=3 for loop definitions of F_5",
+              "definitions": ("F_5 + 63 corpus + bunched forks <= 5 events "
+                              "+ staged merges + kill-in-loop + lead-loop "
+                              "+ loop-on-break-path + nesting-chain "
+                              "skeletons of 7-8 events with a break"
+                              if tier == "quick" else
+                              "F_7 + 63 corpus + bunched forks <= 6 events "
+                              "+ staged merges + kill-in-loop + lead-loop "
+                              "+ loop-on-break-path + all 3-block skeletons "
+                              "with 8 events; k=3 for loop definitions "
+                              "of F_5") + " (counts: tasks_per_family)",
               "presentations": ["canonical", "reversed", "rotated"],
               "loop_bound_k": 2,
               "incomplete_evidence": "every proper non-empty subset of "
